@@ -10,7 +10,7 @@ MODULE = "LV.Gossip.Props"
 TARGETS = ["theories/Gossip/Props.vo", "theories/Gossip/Exec.vo", "theories/Gossip/Examples.vo"]
 WARM = [{"pkg": "discovery", "files": ["discovery/verif_gossip_test.go"]}]
 IMPORTS = ("From Coq Require Import List NArith Bool.\nImport ListNotations.\n"
-           "From LV Require Import Gossip.Model Gossip.Exec.\nLocal Open Scope N_scope.\n")
+           "From LV Require Import Gossip.Model Gossip.Exec.\n")
 
 ERR = {"own": "EOwn", "rejected": "ERejected", "chain": "EChain", "alias": "EAlias",
        "closed": "EClosed", "ca_invalid": "ECaInvalid", "nofund": "ENoFund",
@@ -20,7 +20,7 @@ ERR = {"own": "EOwn", "rejected": "ERejected", "chain": "EChain", "alias": "EAli
 
 
 def n(x):
-    return "%d" % int(x)
+    return "%d%%N" % int(x)
 
 
 def verdict_term(v):
@@ -109,17 +109,17 @@ def case_term(case):
             n(s["now"]), n(s["peer"]), n(cid(m["cid"])), msg_term(m), verdict_term(s["res"]),
             clist(resolved), snap_term(s["G"]), clist(bans2)))
     bc = sorted((cid(h), c) for h, c in case["bcast"].items())
-    cfg = "(mkCfg %s 1 %s false %s %s %s)" % (n(case["own"]), n(case["best"]), n(case["rebroadcast"]),
+    cfg = "(mkCfg %s 1%%N %s false %s %s %s)" % (n(case["own"]), n(case["best"]), n(case["rebroadcast"]),
                                              n(case["prune"]), n(case["burst"]))
     return "mkCase %s %s\n %s\n %s\n %s\n %s\n %s" % (
         cfg, n(case["alias_start"]),
-        clist(["(%d, %d, %d)" % t for t in sorted(ver)]),
+        clist(["(%s, %s, %s)" % tuple(n(x) for x in t) for t in sorted(ver)]),
         clist(["(%s, %s)" % (n(k), v) for k, v in sorted(fund.items())]),
         clist(["(%s, %s, %s, %s)" % (n(k[0]), n(k[1]), cbool(k[2]),
                                       "None" if v is None else "(Some %s)" % n(v))
                for k, v in sorted(script.items())]),
         "[" + ";\n  ".join(steps) + "]",
-        clist(["(%d, %d)" % t for t in bc]))
+        clist(["(%s, %s)" % (n(t[0]), n(t[1])) for t in bc]))
 
 
 def upd_policy(u):
@@ -258,8 +258,17 @@ def run(ctx):
         "funding clause proved for AssumeChannelValid=false (alias SCIDs are rejected for remote "
         "announcements before any graph access)"])
     tags = "verif test_db_sqlite" if (ctx.thorough and ctx.seed % 2 == 0) else "verif"
+    env = {}
+    if ctx.replay:
+        # --replay: re-run exactly the recorded case (same seed, same case index)
+        import json as _json
+        rp = _json.load(open(ctx.replay))
+        det = rp.get("detail") or {}
+        if "case" in det:
+            env = {"VERIF_SEED": str(rp.get("seed", ctx.seed)), "VERIF_CASE_ONLY": str(det["case"]),
+                   "VERIF_TIER": rp.get("tier", ctx.tier)}
     rc, trace, out = run_harness(ctx.uid(), "discovery", ["discovery/verif_gossip_test.go"],
-                                 "^TestVerifGossip$", timeout=2400, tags=tags,
+                                 "^TestVerifGossip$", timeout=2400, tags=tags, env=env,
                                  extra=["-parallel", "6"])
     rows = sorted(read_jsonl(trace), key=lambda r: r["case"])
     if rc != 0 or not rows:
